@@ -121,6 +121,10 @@ class Schema:
                 if r.random() < 0.7:
                     parents = [gen.vent(p, r.choice(ids)) for p in e['parents'] if r.random() < 0.6]
                     attrs = self.record(e['attrs'], ids)
+                    if r.random() < 0.12:
+                        # NOT conforming: an attribute the schema does not declare (often while an optional one is absent); the validator's own
+                        # conformance check must say so - a run it calls conforming is evaluated
+                        attrs = attrs + [[S('undeclared'), r.choice([gen.vlong(1), gen.vstr('s'), gen.vrec([('min', gen.vlong(1))])])]]
                     tags = []
                     if e['tags'] is not None:
                         tags = [[S(k), self.value(e['tags'], ids)] for k in r.sample(['k', 't', 'x y', ''], r.randrange(0, 3))]
@@ -147,8 +151,10 @@ class Schema:
         a = r.choice(sorted(self.actions))
         d = self.actions[a]
         ids = ['a', 'b', 'c', 'zz']
-        return ['req', gen.vent(r.choice(d['principals']), r.choice(ids)), gen.vent('Action', a), gen.vent(r.choice(d['resources']), r.choice(ids)),
-                self.record(d['context'], ids[:3])]
+        cx = self.record(d['context'], ids[:3])
+        if r.random() < 0.12:
+            cx = cx + [[S('undeclared'), r.choice([gen.vlong(1), gen.vstr('s'), gen.vrec([('min', gen.vlong(1))])])]]      # NOT conforming, see store()
+        return ['req', gen.vent(r.choice(d['principals']), r.choice(ids)), gen.vent('Action', a), gen.vent(r.choice(d['resources']), r.choice(ids)), cx]
 
     # ---- policies: expressions typed against an environment (ptype, action, rtype)
     def texpr(self, want, env, depth, guarded=None):
@@ -293,6 +299,9 @@ class Schema:
             # an enumerated entity has no ancestors, attributes or tags: the validator may rely on that only if conformance enforces it
             guards += [['in', el, F], ['in', el, f1], ['in', el, ['mkset', f1, f2]], ['in', ['if', cond, el, f1], f2], ['eq', el, f1],
                        ['in', E, el], ['in', el, el]] * 2
+        # records and entities are closed: `x has undeclared` is typed False only because conformance rejects undeclared attributes
+        und = r.choice([P, R, ['var', 'context']])
+        guards += [['has', und, S('undeclared')]] * 2
         G = r.choice(guards)
         bads = [['gt', ['add', lit(gen.vstr('a')), lit(gen.vlong(1))], lit(gen.vlong(0))], ['like', lit(gen.vlong(1)), ['pat', ['w']]],
                 ['contains', lit(gen.vlong(1)), lit(gen.vlong(1))], ['lt', lit(gen.vlong(1)), lit(gen.vstr('a'))]]
@@ -300,6 +309,9 @@ class Schema:
             base, key, t = r.choice(opt)
             bads += [['eq', ['access', base, S(key)], ['access', base, S(key)]]] * 3
         bads.append(['eq', ['access', P, S('no_such_attribute')], lit(gen.vlong(1))])
+        if G[0] == 'has' and G[2] == S('undeclared'):
+            bads = [['gt', ['access', ['access', G[1], S('undeclared')], S('min')], lit(gen.vlong(3))], ['like', ['access', G[1], S('undeclared')], ['pat', S('adm'), ['w']]],
+                    ['gt', ['access', G[1], S('undeclared')], lit(gen.vlong(0))]] + bads[:2]
         BAD = r.choice(bads)
         body = r.choice([['if', G, BAD, lit(gen.vbool(False))], ['and', G, BAD], ['or', ['not', G], BAD], ['if', ['not', G], lit(gen.vbool(True)), BAD]])
         return ['policy', S('p'), r.choice(['permit', 'forbid']), ['is', S(env[0])], ['eq', gen.vent('Action', a)], ['is', S(env[2])],
